@@ -342,12 +342,12 @@ theorem audienceLoop_no_panic (c : Cfg) (ps : List (Pres × Bool))
         | raw m => exact absurd he (audience_not_raw p hp m)
       · exact ih'
 
-theorem nonce_not_raw (ps : List Pres) (storeOk : Bool) : ∀ m, validatePresentationNonce ps storeOk ≠ some (.raw m) := by
+theorem nonce_not_raw (ps : List Pres) (storeOk : Bool) : ∀ m, validatePresentationNonce ps storeOk ≠ .ok (some (.raw m)) := by
   intro m; unfold validatePresentationNonce
   repeat' split
   all_goals simp
 
-theorem nonce_none_no_extract_err (ps : List Pres) (storeOk : Bool) (h : validatePresentationNonce ps storeOk = none) :
+theorem nonce_none_no_extract_err (ps : List Pres) (storeOk : Bool) (h : validatePresentationNonce ps storeOk = .ok none) :
     ∀ p ∈ ps, extractChallengeErr p = false := by
   unfold validatePresentationNonce at h
   split at h
@@ -358,20 +358,58 @@ theorem nonce_none_no_extract_err (ps : List Pres) (storeOk : Bool) (h : validat
     · rfl
     · exact absurd (List.any_eq_true.mpr ⟨p, hp, hx⟩) hany
 
-theorem handleSubmission_no_panic (c : Cfg) (ps : List (Pres × Bool)) (storeOk : Bool) :
+theorem mem_eraseDups_of_mem (l : List String) (x : String) (h : x ∈ l) : l.eraseDups ≠ [] := by
+  cases l with
+  | nil => simp at h
+  | cons a t => rw [List.eraseDups_cons]; simp
+
+/-- with at least one presentation and every nonce present, `nonces` is not empty: `nonces[0]` is in range -/
+theorem nonce_no_panic (ps : List Pres) (storeOk : Bool) (hne : ps ≠ []) : ∀ s, validatePresentationNonce ps storeOk ≠ .panic s := by
+  intro s
+  unfold validatePresentationNonce
+  split
+  · simp
+  · split
+    · simp
+    · rename_i hall
+      split
+      · simp
+      · split
+        · rename_i hnil
+          exfalso
+          cases ps with
+          | nil => exact hne rfl
+          | cons p t =>
+            have hp : ¬ (p.nonce == "") = true := by
+              intro hh; exact hall (List.any_eq_true.mpr ⟨p, by simp, hh⟩)
+            have hmem : p.nonce ∈ ((p :: t).map (·.nonce)).filter (· != "") := by
+              simp [List.mem_filter]; simpa using hp
+            exact mem_eraseDups_of_mem _ _ hmem (by simpa [noncesOf] using hnil)
+        · split <;> simp
+
+theorem handleSubmission_no_panic (c : Cfg) (hg : c.envelopeGuard = true) (ps : List (Pres × Bool)) (storeOk : Bool) :
     ∀ s, handleSubmission c ps storeOk ≠ .panic s := by
   intro s
   unfold handleSubmission
-  split
-  · rename_i e he
-    cases e with
-    | oauth2 code => simp [withCallbackURI]
-    | raw m => exact absurd he (nonce_not_raw _ _ m)
-  · rename_i hn
-    apply audienceLoop_no_panic
-    intro p hp
-    have := nonce_none_no_extract_err _ _ hn p.1 (List.mem_map.mpr ⟨p, hp, rfl⟩)
-    exact this
+  by_cases hemp : ps.isEmpty = true
+  · simp [hg, hemp]
+  · have hne : ps.map (·.1) ≠ [] := by
+      intro h; apply hemp; cases ps <;> simp_all
+    simp only [hg, hemp, Bool.and_false, Bool.false_eq_true, ↓reduceIte]
+    cases hv : validatePresentationNonce (ps.map (·.1)) storeOk with
+    | panic p => exact absurd hv (nonce_no_panic _ _ hne p)
+    | err e => simp
+    | ok o =>
+      cases o with
+      | some e =>
+        cases e with
+        | oauth2 code => simp [withCallbackURI]
+        | raw m => exact absurd hv (nonce_not_raw _ _ m)
+      | none =>
+        simp only
+        apply audienceLoop_no_panic
+        intro p hp
+        exact nonce_none_no_extract_err _ _ hv p.1 (List.mem_map.mpr ⟨p, hp, rfl⟩)
 
 end CallbackLemmas
 
